@@ -1,6 +1,7 @@
 /- model driver for C16: one operation per input line, one canonical line out -/
 import Batchie.Model.DriverLoop
+import Batchie.Model.PolicyIO
 
 open Batchie
 
-def main : IO Unit := DriverLoop.run []
+def main : IO Unit := DriverLoop.run [PolicyIO.handle]
